@@ -10,23 +10,24 @@ from .report import Report
 
 
 def _wrap(args):
-    fn_mod, case = args
+    fn_mod, case = args[0], args[1]
+    fn = args[2] if len(args) > 2 else "run_case"
     mod = sys.modules[fn_mod]
     try:
-        return mod.run_case(case)
+        return getattr(mod, fn)(case)
     except core.HarnessError as e:
         return {"inconc": ["harness-error"], "trace": str(e)}
     except Exception:
         return {"inconc": ["harness-exception"], "trace": traceback.format_exc()}
 
 
-def pmap(mod, cases, procs=None):
+def pmap(mod, cases, procs=None, fn="run_case"):
     procs = procs or min(core.NCPU, 16)
     if len(cases) <= 1 or procs == 1:
-        return [_wrap((mod.__name__, c)) for c in cases]
+        return [_wrap((mod.__name__, c, fn)) for c in cases]
     ctx = mp.get_context("fork")
     with ctx.Pool(procs) as pool:
-        return pool.map(_wrap, [(mod.__name__, c) for c in cases], chunksize=1)
+        return pool.map(_wrap, [(mod.__name__, c, fn) for c in cases], chunksize=1)
 
 
 def absorb(rep, case, res, max_traces=[3]):
@@ -56,6 +57,15 @@ def run_check(mod, tier, seed, replay=None):
     if replay:
         return run_replay(mod, rep, replay)
     cases = list(mod.gen_cases(tier, seed))
+    if hasattr(mod, "expand_case"):
+        # two-phase checks: a baseline run per case yields the concrete (site x action) cases
+        expanded = []
+        for c, r in zip(cases, pmap(mod, cases, getattr(mod, "PROCS", None), fn="expand_case")):
+            if isinstance(r, dict):
+                absorb(rep, c, r)
+            else:
+                expanded.extend(r)
+        cases = expanded
     for i, c in enumerate(cases):
         c.setdefault("id", i)
     results = pmap(mod, cases, getattr(mod, "PROCS", None))
